@@ -66,4 +66,147 @@ def stdResult (c : List Ad) (cons : Cons) (src : List Val) : Res := stdConsume c
 /-- the same with konst's documented `rposition` convention -/
 def docResult (c : List Ad) (cons : Cons) (src : List Val) : Res := docConsume cons (stdEval c src)
 
+/-! ### closure calls of the std chain
+
+std's adapters are lazy: nothing happens until the consumer asks for the next item, and asking an
+adapter for its next item makes it ask the adapter before it as often as it needs.  A stream is
+therefore described by the list of EVENTS that happen when it is drained: `call (pos, arg)` = the
+closure of method `pos` is called on `arg`, `item v` = the stream hands `v` to whoever asked.  Asking
+for the next item makes the events up to and including the next `item` happen (all remaining ones if
+there is none); a consumer that stops asking cuts the list right there.  An adapter maps the events
+of the stream before it to its own: calls stay where they are, each `item` is replaced by what the
+adapter does with it.  Only chains WITHOUT a reversing method are described (`stdCalls` answers
+`none` otherwise). -/
+
+inductive Ev where
+  | call (c : Call)
+  | item (v : Val)
+deriving Repr, DecidableEq
+
+/-- `map(f)` as method `pos` -/
+def mapE (pos : Nat) (f : Val → Val) : List Ev → List Ev
+  | [] => []
+  | .call c :: r => .call c :: mapE pos f r
+  | .item v :: r => .call (pos, v) :: .item (f v) :: mapE pos f r
+
+/-- `filter(p)`: `find(&mut self.iter, p)` -/
+def filterE (pos : Nat) (p : Val → Bool) : List Ev → List Ev
+  | [] => []
+  | .call c :: r => .call c :: filterE pos p r
+  | .item v :: r => .call (pos, v) :: (if p v then .item v :: filterE pos p r else filterE pos p r)
+
+def filterMapE (pos : Nat) (f : Val → Option Val) : List Ev → List Ev
+  | [] => []
+  | .call c :: r => .call c :: filterMapE pos f r
+  | .item v :: r => .call (pos, v) :: (match f v with | some y => .item y :: filterMapE pos f r | none => filterMapE pos f r)
+
+/-- `flat_map(f)`: `f` is called when the next outer item is needed, its items follow -/
+def flatMapE (pos : Nat) (f : Val → List Val) : List Ev → List Ev
+  | [] => []
+  | .call c :: r => .call c :: flatMapE pos f r
+  | .item v :: r => .call (pos, v) :: ((f v).map .item ++ flatMapE pos f r)
+
+def flattenE : List Ev → List Ev
+  | [] => []
+  | .call c :: r => .call c :: flattenE r
+  | .item v :: r => (unseq v).map .item ++ flattenE r
+
+def enumE : Nat → List Ev → List Ev
+  | _, [] => []
+  | i, .call c :: r => .call c :: enumE i r
+  | i, .item v :: r => .item (.pair (.n i) v) :: enumE (i + 1) r
+
+/-- `take(k)`: once `k` items were handed out it answers `None` WITHOUT asking the stream before it -/
+def takeE : Nat → List Ev → List Ev
+  | 0, _ => []
+  | _ + 1, [] => []
+  | k + 1, .call c :: r => .call c :: takeE (k + 1) r
+  | k + 1, .item v :: r => .item v :: takeE k r
+
+/-- `skip(k)`: the first request is `nth(k)` on the stream before it -/
+def skipE : Nat → List Ev → List Ev
+  | _, [] => []
+  | k, .call c :: r => .call c :: skipE k r
+  | 0, .item v :: r => .item v :: skipE 0 r
+  | k + 1, .item _ :: r => skipE k r
+
+/-- `take_while(p)`: the first item that fails `p` ends the stream (flag set, nothing asked again) -/
+def takeWhileE (pos : Nat) (p : Val → Bool) : List Ev → List Ev
+  | [] => []
+  | .call c :: r => .call c :: takeWhileE pos p r
+  | .item v :: r => .call (pos, v) :: (if p v then .item v :: takeWhileE pos p r else [])
+
+/-- `skip_while(p)`: `p` is called until it first answers `false`, and NEVER again (`s` = still
+    skipping) -/
+def skipWhileE (pos : Nat) (p : Val → Bool) : Bool → List Ev → List Ev
+  | _, [] => []
+  | s, .call c :: r => .call c :: skipWhileE pos p s r
+  | false, .item v :: r => .item v :: skipWhileE pos p false r
+  | true, .item v :: r => .call (pos, v) :: (if p v then skipWhileE pos p true r else .item v :: skipWhileE pos p false r)
+
+/-- `zip(other)` (`other` yields its items without calls): `let x = self.a.next()?; let y =
+    self.b.next()?;` — the item of the first stream is asked for first, so what it costs happens even
+    when `other` turns out to be exhausted (std: "at most one time"; its `TrustedRandomAccess`
+    shortcut does not ask at all — the oracle programs iterate a source that does not opt into it) -/
+def zipE : List Val → List Ev → List Ev
+  | _, [] => []
+  | l, .call c :: r => .call c :: zipE l r
+  | [], .item _ :: _ => []
+  | y :: l, .item v :: r => .item (.pair v y) :: zipE l r
+
+/-- one adapter as method `pos` (`rev` is outside the described fragment) -/
+def applyAdE (pos : Nat) : Ad → List Ev → List Ev
+  | .copied, e => e
+  | .enumerate, e => enumE 0 e
+  | .filter p, e => filterE pos p e
+  | .filterMap f, e => filterMapE pos f e
+  | .flatMap f, e => flatMapE pos f e
+  | .flatten, e => flattenE e
+  | .map f, e => mapE pos f e
+  | .rev, e => e
+  | .skip k, e => skipE k e
+  | .skipWhile p, e => skipWhileE pos p true e
+  | .take k, e => takeE k e
+  | .takeWhile p, e => takeWhileE pos p e
+  | .zip other, e => zipE other e
+
+/-- the events of the adapter chain whose first method has position `pos` -/
+def stdEvalE : Nat → List Ad → List Ev → List Ev
+  | _, [], e => e
+  | pos, a :: r, e => stdEvalE (pos + 1) r (applyAdE pos a e)
+
+/-- the calls that happen when consumer `c` (method `pos`) drives a stream: every event up to the
+    point where it stops asking, plus its own call after each item it receives.
+    `fold(init, f)` over `x, rest…` is `fold(f(init, x), f)` over `rest…`; `nth(k+1)` drops one item
+    and is `nth(k)`. -/
+def consumeCalls (pos : Nat) : Cons → List Ev → Log
+  | _, [] => []
+  | c, .call e :: r => e :: consumeCalls pos c r
+  | .forEach, .item v :: r => (pos, v) :: consumeCalls pos .forEach r
+  | .collect, .item _ :: r => consumeCalls pos .collect r
+  | .count, .item _ :: r => consumeCalls pos .count r
+  | .all p, .item v :: r => (pos, v) :: (if p v then consumeCalls pos (.all p) r else [])
+  | .any p, .item v :: r => (pos, v) :: (if p v then [] else consumeCalls pos (.any p) r)
+  | .find p, .item v :: r => (pos, v) :: (if p v then [] else consumeCalls pos (.find p) r)
+  | .rfind p, .item v :: r => (pos, v) :: (if p v then [] else consumeCalls pos (.rfind p) r)
+  | .position p, .item v :: r => (pos, v) :: (if p v then [] else consumeCalls pos (.position p) r)
+  | .rposition p, .item v :: r => (pos, v) :: (if p v then [] else consumeCalls pos (.rposition p) r)
+  | .findMap f, .item v :: r => (pos, v) :: (if (f v).isSome then [] else consumeCalls pos (.findMap f) r)
+  | .fold i f, .item v :: r => (pos, .pair i v) :: consumeCalls pos (.fold (f i v) f) r
+  | .rfold i f, .item v :: r => (pos, .pair i v) :: consumeCalls pos (.rfold (f i v) f) r
+  | .next, .item _ :: _ => []
+  | .nth 0, .item _ :: _ => []
+  | .nth (k + 1), .item _ :: r => consumeCalls pos (.nth k) r
+
+def anyRev : List Ad → Bool
+  | [] => false
+  | .rev :: _ => true
+  | _ :: r => anyRev r
+
+/-- the closure calls of `src.iter().chain…().consumer(…)`, methods numbered from 0; `none` = a
+    reversing method occurs (not described here) -/
+def stdCalls (c : List Ad) (cons : Cons) (src : List Val) : Option Log :=
+  if anyRev c || cons.isRev then none
+  else some (consumeCalls c.length cons (stdEvalE 0 c (src.map .item)))
+
 end Konst.Iter.Spec
